@@ -19,17 +19,20 @@ set_option linter.unusedVariables false
 namespace GeomV.C12
 open GeomV GeomV.C11
 
+/-- wire: K = 0 is NearestNeighbor, K ≥ 1 is NearestNeighbors(K), K = -1000 is NearestNeighbors(0),
+any other negative K is NearestNeighbors(K) (outside the property's k ≥ 1: correspondence only) -/
 structure KQ where
   x : Rat
   y : Rat
-  k : Nat
+  nn : Bool
+  k : Int
 
 def pKQs : Nat → Tok → Option (List KQ)
   | 0, _ => some []
   | n+1, x :: y :: k :: t => do
-    let x ← pNum x; let y ← pNum y; let k ← k.toNat?
+    let x ← pNum x; let y ← pNum y; let k ← k.toInt?
     let r ← pKQs n t
-    pure (⟨x, y, k⟩ :: r)
+    pure (⟨x, y, k == 0, if k == -1000 then 0 else k⟩ :: r)
   | _, _ => none
 
 def pOptIds (pool : Array ObjRec) : Nat → Tok → Option (List (Option ObjRec))
@@ -50,7 +53,7 @@ def dstr (px py : Rat) (l : List ObjRec) : String :=
 def judgeQuery (h : Hist) (s : List ObjRec) (t : Tree ObjRec) (treeSame : Bool) (q : KQ) (a : Tok) : Option String :=
   let exact := h.maxC ≤ 11 && treeSame
   let at_ := s!"p=({ratStr q.x},{ratStr q.y})-k={q.k}-stored={s.length}"
-  if q.k == 0 then
+  if q.nn then
     let m := nearestNeighbor stableOrder t q.x q.y
     match a with
     | "nn" :: "panic" :: _ =>
@@ -66,6 +69,14 @@ def judgeQuery (h : Hist) (s : List ObjRec) (t : Tree ObjRec) (treeSame : Bool) 
           | .ok mo => if exact && mo != o then some s!"DIFF nn-object-differs-from-model-{at_}" else none
           | .error f => if treeSame then some s!"DIFF nn-model-faults-{at_}" else none
     | _ => some "SPEC bad-answer-syntax"
+  else if q.k < 1 then
+    -- outside the property (k ≥ 1): the model's answer only (makeslice panic for k < 0, empty slice for 0)
+    match a, nearestNeighborsInt stableOrder t q.k q.x q.y with
+    | "knn" :: "panic" :: msg, .error _ =>
+      if msg.any (fun w => (w.splitOn "makeslice").length > 1) then none else some s!"DIFF knn-nonpos-k-other-panic-{at_}"
+    | "knn" :: "panic" :: _, .ok _ => some s!"DIFF knn-nonpos-k-panicked-model-answers-{at_}"
+    | ["knn", "0"], .ok [] => none
+    | _, _ => some s!"DIFF knn-nonpos-k-differs-from-model-{at_}"
   else
     match a with
     | "knn" :: "panic" :: _ => some s!"SPEC NearestNeighbors-panicked-{at_}"
@@ -73,9 +84,9 @@ def judgeQuery (h : Hist) (s : List ObjRec) (t : Tree ObjRec) (treeSame : Bool) 
       match c.toNat?.bind (fun c => pOptIds h.pool c ids) with
       | none => some s!"SPEC NearestNeighbors-returned-foreign-object-{at_}"
       | some res =>
-        if !specKNN s q.k q.x q.y res then
+        if !specKNN s q.k.toNat q.x q.y res then
           some s!"SPEC NearestNeighbors-{at_}-returned=[{optIdsStr res}]-dist2=[{dstr q.x q.y (res.filterMap id)}]"
-        else match nearestNeighbors stableOrder t q.k q.x q.y with
+        else match nearestNeighborsInt stableOrder t q.k q.x q.y with
           | .ok mr => if exact && mr != res then some s!"DIFF knn-objects-differ-from-model-{at_}-model=[{optIdsStr mr}]-impl=[{optIdsStr res}]" else none
           | .error f => if treeSame then some s!"DIFF knn-model-faults-{at_}" else none
     | _ => some "SPEC bad-answer-syntax"
